@@ -18,14 +18,14 @@ Proof.
     destruct (main_handler c (ls l) o) as [[[s1 ev] calls]|] eqn:M; [|now apply nostuck_main in M].
     pose proof (SL_main _ _ _ _ _ _ H M) as H1. pose proof (SB_main _ _ _ _ _ _ B M) as B1.
     match goal with |- context [if ?b then _ else _] => destruct b end; do 3 eexists; (split; [reflexivity|split; auto]).
-  - destruct (lq l) as [|e rest].
-    + destruct (next_notif (ls l) (lnf l)) as [[p|] t]; do 3 eexists; (split; [reflexivity|exact I]).
+  - destruct (poll_events cap (ls l) (lq l)) as [[dd [e|]] rest].
+    2: { destruct (next_notif (ls l) (lnf l)) as [[p|] t]; do 3 eexists; (split; [reflexivity|exact I]). }
     + destruct (drain (ls l) [e]) as [[s1 dr] killed] eqn:D.
       pose proof (drain_net _ _ _ _ _ D) as N1. destruct I as [H B].
       pose proof (SL_net _ _ N1 H) as H1. pose proof (SB_net _ _ N1 B) as B1.
       assert (I1 : forall s1', (exists p v, s1' = set_hsink s1 p v) \/ s1' = s1 -> SL s1' /\ SB s1').
       { intros s1' [(p & v & ->)| ->]; [|auto]. apply (SInv_set_hsink s1 p v). split; auto. }
-      destruct e as [p|p d|p|p e0|p]; destruct (lsk l) as [|k kt];
+      destruct e as [p|p d|p|p e0|p|p k0]; destruct (lsk l) as [|k kt];
         match goal with
         | |- context [kill_tasks ?x killed] =>
             destruct (kill_tasks x killed) as [s2 ev4] eqn:K;
@@ -44,28 +44,58 @@ Proof.
 Qed.
 
 (* ---- nothing lost, nothing reordered ---- *)
-(* what a step takes out of the event queue *)
-Definition ltaken (l : lst) (g : lop) : list uev :=
-  match g, lq l with LPoll, e :: _ => [e] | _, _ => [] end.
+(* one poll splits the queue into the ignored reports it drops, the event it hits, and the rest *)
+Lemma poll_split n s : forall q d h r, poll_events n s q = (d, h, r) ->
+  q = d ++ match h with Some e => e :: r | None => r end /\ Forall (fun e => stale s e = true) d.
+Proof.
+  induction n as [|n IH]; intros q d h r; cbn [poll_events].
+  - intros E; injection E as <- <- <-. auto.
+  - destruct q as [|e t]; [intros E; injection E as <- <- <-; auto|].
+    destruct (stale s e) eqn:St.
+    + destruct (poll_events n s t) as [[d0 h0] r0] eqn:P. intros E; injection E as <- <- <-.
+      destruct (IH _ _ _ _ P) as [A B]. split; [cbn; f_equal; exact A|constructor; auto].
+    + intros E; injection E as <- <- <-. auto.
+Qed.
+
+(* ignored reports are dropped without a trace: nothing is handed out, the handle state stays *)
+Lemma delivered_stale s d : Forall (fun e => stale s e = true) d -> forall t, delivered s (d ++ t) = delivered s t.
+Proof.
+  induction 1 as [|e r E _ IH]; intros t; cbn [app]; auto.
+  unfold stale in E. destruct e; cbn [closed_report] in E; try discriminate E; cbn [delivered closed_report];
+    apply negb_true_iff in E; rewrite E; apply IH.
+Qed.
+
+(* what a step takes out of the event queue: the ignored reports at its head and the event it hits *)
+Definition ltaken (cap : nat) (l : lst) (g : lop) : list uev :=
+  match g with
+  | LPoll => let '(d, h, _) := poll_events cap (ls l) (lq l) in d ++ match h with Some e => [e] | None => [] end
+  | LOp _ => []
+  end.
 
 (* one step: what was taken from the queue, followed by what is still queued, is what was queued before
-   followed by what the step emitted; and what is taken is exactly what `handle.next()` returns *)
+   followed by what the step emitted; and when the poll hits an event that the handle does not ignore, what
+   `handle.next()` returns is what the handle makes of the events taken (delivered: ignored reports vanish,
+   a Connection task's report that is not ignored is handed out as NotificationStreamClosed) *)
 Lemma lstep_fifo c cap l g l' ev cl :
   lstep c cap l g = Some (l', ev, cl) ->
-  ltaken l g ++ lq l' = lq l ++ lemitted c cap l g /\ (ltaken l g <> [] -> ev = ltaken l g).
+  ltaken cap l g ++ lq l' = lq l ++ lemitted c cap l g /\
+  (snd (fst (poll_events cap (ls l) (lq l))) <> None \/ g <> LPoll -> ev = delivered (ls l) (ltaken cap l g)).
 Proof.
   destruct g as [o|]; cbn [lstep lemitted ltaken].
   - destruct (lskip cap l o); [intros E; injection E as <- <- <-; cbn; rewrite app_nil_r; split; [auto|tauto]|].
     destruct (main_handler c (ls l) o) as [[[s1 ev1] calls]|]; [|discriminate].
     match goal with |- context [if ?b then _ else _] => destruct b end; intros E; injection E as <- <- <-;
       (split; [reflexivity|tauto]).
-  - destruct (lq l) as [|e rest] eqn:Q.
-    + destruct (next_notif (ls l) (lnf l)) as [[p|] t]; intros E; injection E as <- <- <-; (split; [reflexivity|tauto]).
+  - destruct (poll_events cap (ls l) (lq l)) as [[dd h] rest] eqn:Q.
+    destruct (poll_split _ _ _ _ _ _ Q) as [SP St]. cbn [fst snd].
+    destruct h as [e|].
     + destruct (drain (ls l) [e]) as [[s1 dr] killed].
       destruct (match e, lsk l with UOpened p _, k :: kt => (set_hsink s1 p (Some k), kt) | _, ks => (s1, ks) end) as [s1' ks].
       destruct (kill_tasks s1' killed) as [s2 ev4]. cbn [snd].
       match goal with |- context [if ?b then _ else _] => destruct b end; intros E; injection E as <- <- <-;
-        (split; [reflexivity|auto]).
+        (split; [cbn [lq]; rewrite SP, <- !app_assoc; reflexivity|intros _; now rewrite delivered_stale]).
+    + destruct (next_notif (ls l) (lnf l)) as [[p|] t]; intros E; injection E as <- <- <-;
+        (split; [cbn [lq]; rewrite SP, !app_nil_r; reflexivity|intros [X|X]; contradiction]).
 Qed.
 
 (* the emissions and the removals of a whole run *)
@@ -78,7 +108,7 @@ Fixpoint lemitted_run (c : cfg) (cap : nat) (l : lst) (gs : list lop) : list uev
 Fixpoint ltaken_run (c : cfg) (cap : nat) (l : lst) (gs : list lop) : list uev :=
   match gs with
   | [] => []
-  | g :: t => ltaken l g ++
+  | g :: t => ltaken cap l g ++
               match lstep c cap l g with Some (l1, _, _) => ltaken_run c cap l1 t | None => [] end
   end.
 Fixpoint lfinal (c : cfg) (cap : nat) (l : lst) (gs : list lop) : lst :=
@@ -97,9 +127,9 @@ Proof.
     rewrite <- app_assoc, (IH l1 I1), app_assoc, F, <- app_assoc. reflexivity.
 Qed.
 
-(* a user who keeps polling gets the oldest queued event, whatever the capacity *)
-Lemma lpoll_delivers c cap l e rest :
-  lq l = e :: rest -> exists l' cl, lstep c cap l LPoll = Some (l', [e], cl).
+(* a user who keeps polling gets the oldest queued event that the handle does not ignore, whatever the capacity *)
+Lemma lpoll_delivers c cap l dd e rest :
+  poll_events cap (ls l) (lq l) = (dd, Some e, rest) -> exists l' cl, lstep c cap l LPoll = Some (l', delivered (ls l) [e], cl).
 Proof.
   intros Q. cbn [lstep]. rewrite Q.
   destruct (drain (ls l) [e]) as [[s1 dr] killed].
@@ -113,19 +143,39 @@ Qed.
    whether the loop is parked: two runs of the same schedule under different capacities in which no
    event is scheduled while the loop is parked go through the same protocol states, the same queue and
    hand the user the same events. *)
-Definition lcore (l : lst) : st * list uev * list N * list peer := (ls l, lq l, lsk l, lnf l).
+Definition lcore (l : lst) : st * list uev * list N * list (peer * N) := (ls l, lq l, lsk l, lnf l).
+
+(* a poll that is cut short by the capacity: every event in the channel was an ignored report and more is
+   queued with waiting producers *)
+Fixpoint poll_cut (n : nat) (s : st) (q : list uev) : bool :=
+  match n, q with
+  | S n', e :: t => if stale s e then poll_cut n' s t else false
+  | O, _ :: _ => true
+  | _, [] => false
+  end.
+
+Lemma poll_uncut n1 s : forall n2 q, poll_cut n1 s q = false -> poll_cut n2 s q = false ->
+  poll_events n1 s q = poll_events n2 s q.
+Proof.
+  induction n1 as [|n1 IH]; intros n2 q C1 C2.
+  - destruct q; [|discriminate C1]. destruct n2; reflexivity.
+  - destruct q as [|e t]; [destruct n2; reflexivity|].
+    destruct n2 as [|n2]; [discriminate C2|]. cbn in *.
+    destruct (stale s e); auto. rewrite (IH n2 t C1 C2). reflexivity.
+Qed.
 
 Fixpoint never_blocked (c : cfg) (cap : nat) (l : lst) (gs : list lop) : bool :=
   match gs with
   | [] => true
   | g :: t =>
-      match g with LOp _ => negb (parked cap l) | LPoll => true end &&
+      match g with LOp _ => negb (parked cap l) | LPoll => negb (poll_cut cap (ls l) (lq l)) end &&
       match lstep c cap l g with Some (l1, _, _) => never_blocked c cap l1 t | None => true end
   end.
 
 Lemma lstep_cap c cap1 cap2 l1 l2 g :
   lcore l1 = lcore l2 ->
-  match g with LOp _ => parked cap1 l1 = false /\ parked cap2 l2 = false | LPoll => True end ->
+  match g with LOp _ => parked cap1 l1 = false /\ parked cap2 l2 = false
+             | LPoll => poll_cut cap1 (ls l1) (lq l1) = false /\ poll_cut cap2 (ls l2) (lq l2) = false end ->
   match lstep c cap1 l1 g, lstep c cap2 l2 g with
   | Some (a, ev1, _), Some (b, ev2, _) => lcore a = lcore b /\ ev1 = ev2
   | None, None => True
@@ -138,8 +188,9 @@ Proof.
     destruct (send_op o); [auto|].
     destruct (main_handler c s1 o) as [[[sa ev] calls]|]; [|exact I].
     repeat match goal with |- context [if ?b then _ else _] => destruct b end; auto.
-  - destruct q1 as [|e rest].
-    + destruct (next_notif s1 n1) as [[p|] t]; auto.
+  - destruct P as [P1 P2]. rewrite (poll_uncut cap1 s1 cap2 q1 P1 P2).
+    destruct (poll_events cap2 s1 q1) as [[dd [e|]] rest].
+    2: { destruct (next_notif s1 n1) as [[p|] t]; repeat match goal with |- context [if ?b then _ else _] => destruct b end; auto. }
     + destruct (drain s1 [e]) as [[sa dr] killed].
       destruct e; destruct k1;
         match goal with |- context [kill_tasks ?x killed] => destruct (kill_tasks x killed) as [sb ev4] end;
@@ -155,8 +206,9 @@ Lemma lrun_cap c cap1 cap2 gs : forall l1 l2,
 Proof.
   induction gs as [|g t IH]; intros l1 l2 C N1 N2; cbn in *; auto.
   apply andb_true_iff in N1. destruct N1 as [N1 N1']. apply andb_true_iff in N2. destruct N2 as [N2 N2'].
-  assert (P : match g with LOp _ => parked cap1 l1 = false /\ parked cap2 l2 = false | LPoll => True end).
-  { destruct g; auto. split; now apply negb_true_iff. }
+  assert (P : match g with LOp _ => parked cap1 l1 = false /\ parked cap2 l2 = false
+                         | LPoll => poll_cut cap1 (ls l1) (lq l1) = false /\ poll_cut cap2 (ls l2) (lq l2) = false end).
+  { destruct g; split; now apply negb_true_iff. }
   pose proof (lstep_cap c cap1 cap2 l1 l2 g C P) as S.
   destruct (lstep c cap1 l1 g) as [[[a ev1] c1]|]; destruct (lstep c cap2 l2 g) as [[[b ev2] c2]|]; try tauto; auto.
   destruct S as [CA ->]. specialize (IH a b CA N1' N2').
